@@ -108,6 +108,16 @@ def main():
     res["kernels"] = {"A_induced": sha(buf), "cdist": sha(distance.cdist(centers, sites)), "sqcdist": sha(distance.cdist(centers, sites, metric="sqeuclidean")),
                       "bs_z": sha(biot_savart_2d(centers[:, 0], centers[:, 1], 0.7, positions=sites, current_densities=J, areas=areas, vector=False).magnitude),
                       "bs_vec": sha(biot_savart_2d(centers[:, 0], centers[:, 1], 0.7, positions=sites, current_densities=J, areas=areas, vector=True).magnitude)}
+    if cfg.get("sweep"):
+        # a parameter sweep on ONE device object: the last run of the sweep must equal the identical simulation on a
+        # freshly built identical device (nothing kept from the earlier runs of the process may enter it)
+        lam2 = cfg.get("lam", 2.0) * 0.6
+        dev.layer.london_lambda = lam2
+        swept = tdgl.solve(dev, opts2, applied_vector_potential=A, terminal_currents=cur)
+        fresh_dev = zoo.make_device(cfg["dev"], np.random.default_rng(12345), max_edge_length=cfg.get("mel", 1.0), lam=lam2, smooth=cfg.get("smooth", 0))
+        same_mesh = sha(fresh_dev.mesh.sites) == res["mesh"]["sites"] and sha(fresh_dev.mesh.elements) == res["mesh"]["elements"]
+        fresh = tdgl.solve(fresh_dev, opts2, applied_vector_potential=A, terminal_currents=cur)
+        res["sweep"] = {"same_mesh": same_mesh, "swept": {"final": fin(swept), "dt": sha(swept.dynamics.dt)}, "fresh": {"final": fin(fresh), "dt": sha(fresh.dynamics.dt)}}
     # ... and on larger inputs (more sites / points than any block size or chunking threshold a kernel might use)
     for n, m in ((700, 1300), (1024, 600), (2500, 900), (6000, 257)):
         sites, centers, J, areas = r2.uniform(-3, 3, (n, 2)), r2.uniform(-3, 3, (m, 2)), r2.normal(size=(n, 2)), r2.uniform(0.01, 0.5, n)
